@@ -3,12 +3,13 @@
    immutable scoped definitions (`let <scope>.x = e`, `node <scope>.x`) whose scope expression is pure, and scoped
    reads `<scope>.x` in deferred positions (values of `let`/`var`/`set`, attribute values, edge and attribute
    endpoints, `print` arguments, the elements of comprehensions, arguments of calls, scope expressions of reads);
-   no inherited names (f_inherited fl = []).  Whenever strict execution succeeds, lazy execution on the same
+   inherited names under the side condition `inh_antichain` on the final strict scoped store (no definer of an
+   inherited name has a defining proper ancestor).  Whenever strict execution succeeds, lazy execution on the same
    matches in strict order never fails, never panics and, unless the model runs out of fuel, returns EXACTLY the
    strict graph.  Evaluation phase: every pending statement, every thunk and every cell is forced with the
    level-1 forcing lemma of Proofs/SL2Force.v. *)
 From TSG Require Import Model.Lazy Model.Stdlib Proofs.BaseFacts Proofs.Containers Proofs.MonadFacts
-  Proofs.SLGraph Proofs.SLForce Proofs.SLExpr Proofs.SLConv Proofs.SLStmt Proofs.StrictLazy Proofs.SL2Force Proofs.SL2Expr Proofs.SL2Stmt.
+  Proofs.SLGraph Proofs.SLForce Proofs.SLExpr Proofs.SLConv Proofs.SLStmt Proofs.StrictLazy Proofs.Scoped Proofs.SL2Force Proofs.SL2Expr Proofs.SL2Stmt.
 
 Definition match_ok2 (okfn : ident -> Prop) (purev : ident -> bool) (fl : file) (st : stanza) (m : qmatch) : Prop :=
   All (fstmt2 okfn purev m) (st_stmts st) /\
@@ -21,6 +22,14 @@ Fixpoint file_ok2 (okfn : ident -> Prop) (purev : ident -> bool) (fl : file) (st
   | [], _ :: _ => False
   end.
 
+(* the side condition for inherited names, on the FINAL strict scoped store: no node that defines an inherited name
+   has a proper ancestor that defines it too (so the definition a read resolved to is still the nearest one at the
+   end of the run, where lazy evaluation resolves it) *)
+Definition inh_antichain (t : tree) (fl : file) (sc : list (N * vframe value)) : Prop :=
+  forall name n a, inherited fl name = true -> In a (anc t n) -> scoped_lookup sc n name <> None -> scoped_lookup sc a name <> None -> False.
+Lemma inh_antichain_nil t fl sc : f_inherited fl = [] -> inh_antichain t fl sc.
+Proof. intros E name n a Hi. unfold inherited in Hi. rewrite E in Hi. discriminate. Qed.
+
 Section Whole2.
   Context {rx : Type}.
   Variables (t : tree) (fl : file) (glob : globals) (regexes : list rx)
@@ -29,7 +38,6 @@ Section Whole2.
   Variable okfn : ident -> Prop.
   Variable purev : ident -> bool.
   Hypothesis Hpure : forall f, okfn f -> pure_fn call f.
-  Hypothesis Hinh : f_inherited fl = [].
 
   Notation den2 := (den2 call).
   Notation Sfull := (Sfull call).
@@ -47,11 +55,13 @@ Section Whole2.
   Section Fixed.
     Variable w : world.
     Hypothesis Hnd : sig_nodup w.
+    Hypothesis Hac : sig_antichain w.
+    Hypothesis Hws : wstatic t fl w.
 
     Lemma force_v2 F g lv v ls pl : vinv2 w g ls -> den2 w false lv v -> nob pl ->
       lres (eval_lv' F lv ls pl) (fun v' ls' pl' => v' = v /\ nob pl' /\ vinv2 w g ls').
     Proof.
-      intros (Hg & Hst & Hsc) Hd Hb. eapply lres_mono; [apply (force1_full call t fl F w lv v ls pl Hnd Hst Hsc Hd Hb)|].
+      intros (Hg & Hst & Hsc) Hd Hb. eapply lres_mono; [apply (force1_full call t fl F w lv v ls pl Hnd Hac Hws Hst Hsc Hd Hb)|].
       intros v' ls' pl' (-> & Hb' & st' & sc' & -> & Hst' & Hsc'). split; [reflexivity|]. split; [exact Hb'|]. apply vinv2_intro; first [assumption|reflexivity].
     Qed.
     Lemma force_gnode2 F g lv x ls pl : vinv2 w g ls -> den2 w false lv (VGraph x) -> nob pl ->
@@ -159,7 +169,7 @@ Section Whole2.
       destruct st as [n attrs dbg|a b ea dbg|a b attrs dbg|args dbg]; cbn [print_ok2] in Hst; try contradiction. apply lres_ctx.
       assert (Hargs : forall ls0 pl1, vinv2 w g ls0 -> nob pl1 ->
                 lres (iterM (fun a : option lvalue => match a with Some lv => eval_lv' F lv ;;; ret tt | None => ret tt end) args ls0 pl1) (vpost2 w g)).
-      { clear -Hst Hnd. induction args as [|a args IHa]; intros ls0 pl1 HV Hb; cbn [iterM]; [apply lres_ret; split; assumption|].
+      { clear -Hst Hnd Hac Hws. induction args as [|a args IHa]; intros ls0 pl1 HV Hb; cbn [iterM]; [apply lres_ret; split; assumption|].
         inversion Hst as [|? ? Ha Hrest]; subst. apply lres_bind. destruct a as [lv|].
         - destruct Ha as [v Hv]. apply lres_bind. eapply lres_mono; [apply (force_v2 F g lv v ls0 pl1 HV Hv Hb)|]. intros v' ls1 pl2 (-> & Hb1 & HV1).
           apply lres_ret. apply (IHa Hrest ls1 pl2 HV1 Hb1).
@@ -176,7 +186,7 @@ Section Whole2.
       { induction l as [|i l IHl]; intros ls0 pl0 HF HV0 Hb0; cbn [map iterM]; [apply lres_ret; split; assumption|].
         inversion HF as [|? ? Hi HF']; subst. apply lres_bind. apply lres_bind. destruct HV0 as (Hg0 & Hst0 & Hsc0).
         assert (Hi0 : (i < length (l_store ls0))%nat) by (rewrite <- (proj1 Hst0); exact Hi).
-        eapply lres_mono; [apply (force1_full_thunk call t fl F w i ls0 pl0 Hnd Hst0 Hsc0 Hi0 Hb0)|]. intros v ls1 pl1 (Hb1 & st' & sc' & -> & Hst' & Hsc').
+        eapply lres_mono; [apply (force1_full_thunk call t fl F w i ls0 pl0 Hnd Hac Hws Hst0 Hsc0 Hi0 Hb0)|]. intros v ls1 pl1 (Hb1 & st' & sc' & -> & Hst' & Hsc').
         apply lres_ret. apply (IHl _ pl1 HF'); [apply vinv2_intro; first [assumption|reflexivity]|exact Hb1]. }
       apply Hgen; [|exact HV|exact Hb]. apply Forall_forall. intros i Hi. apply in_seq in Hi. lia.
     Qed.
@@ -192,21 +202,29 @@ Section Whole2.
     Qed.
   End Fixed.
 
-  Lemma evaluate_phase_res2 F w ss ls pl : Rel2 call purev w ss ls -> nob pl ->
+  Lemma rel2_antichain w ss ls : inh_antichain t fl (s_scoped ss) -> Rel2 t fl call purev w ss ls -> sig_antichain w /\ wstatic t fl w.
+  Proof.
+    intros Hanti ((_ & _ & [[Wt Wi] _]) & _ & _ & Hss & _). split; [|split; assumption].
+    intros name n a l1 l2 Hi Ha H1 H2. unfold winh in Hi. rewrite Wi in Hi. rewrite Wt in Ha.
+    apply (Hanti name n a Hi Ha (Hss _ _ _ H1) (Hss _ _ _ H2)).
+  Qed.
+
+  Lemma evaluate_phase_res2 F w ss ls pl : inh_antichain t fl (s_scoped ss) -> Rel2 t fl call purev w ss ls -> nob pl ->
     lres (evaluate_phase t fl call F ls pl) (fun _ ls' _ => l_graph ls' = s_graph ss).
   Proof.
+    intros Hanti HR. destruct (rel2_antichain w ss ls Hanti HR) as [Hac Hws]. revert HR.
     intros ((Hst & _ & _) & Hcells & Hnd & _ & Hpr & eops & aopss & g1 & He & Ha & Hg1 & Hg2) Hb. unfold evaluate_phase. apply lres_get.
     assert (HV : vinv2 w (l_graph ls) ls) by (apply vinv2_intro; [reflexivity|exact Hst|apply cells_unforced_ok, Hcells]).
-    apply lres_bind. eapply lres_mono; [apply (eval_edge_stmts2 w Hnd F _ _ _ _ ls pl He HV Hg1 Hb)|]. intros _ ls1 pl1 [Hb1 HV1].
-    apply lres_bind. eapply lres_mono; [apply (eval_attr_stmts2 w Hnd F _ _ _ _ ls1 pl1 Ha HV1 Hg2 Hb1)|]. intros _ ls2 pl2 [Hb2 HV2].
-    apply lres_bind. eapply lres_mono; [apply (eval_print_stmts2 w Hnd F _ _ ls2 pl2 Hpr HV2 Hb2)|]. intros _ ls3 pl3 [Hb3 HV3].
-    apply lres_bind. eapply lres_mono; [apply (eval_store_all2 w Hnd F _ ls3 pl3 HV3 Hb3)|]. intros _ ls4 pl4 [Hb4 HV4].
+    apply lres_bind. eapply lres_mono; [apply (eval_edge_stmts2 w Hnd Hac Hws F _ _ _ _ ls pl He HV Hg1 Hb)|]. intros _ ls1 pl1 [Hb1 HV1].
+    apply lres_bind. eapply lres_mono; [apply (eval_attr_stmts2 w Hnd Hac Hws F _ _ _ _ ls1 pl1 Ha HV1 Hg2 Hb1)|]. intros _ ls2 pl2 [Hb2 HV2].
+    apply lres_bind. eapply lres_mono; [apply (eval_print_stmts2 w Hnd Hac Hws F _ _ ls2 pl2 Hpr HV2 Hb2)|]. intros _ ls3 pl3 [Hb3 HV3].
+    apply lres_bind. eapply lres_mono; [apply (eval_store_all2 w Hnd Hac Hws F _ ls3 pl3 HV3 Hb3)|]. intros _ ls4 pl4 [Hb4 HV4].
     eapply lres_mono; [apply (eval_scoped_all2 w Hnd F _ ls4 pl4 HV4 Hb4)|]. intros _ ls5 pl5 [Hb5 (Hg5 & _)]. exact Hg5.
   Qed.
 
   (* ---------------- stanzas and files ---------------- *)
-  Notation xsimU2 := (xsim2 call purev (@anyQ unit unit)).
-  Lemma xsim2_lext {A B} (Q : A -> B -> Prop) ms (ml ml' : M lstate B) : (forall s p, ml s p = ml' s p) -> xsim2 call purev Q ms ml' -> xsim2 call purev Q ms ml.
+  Notation xsimU2 := (xsim2 t fl call purev (@anyQ unit unit)).
+  Lemma xsim2_lext {A B} (Q : A -> B -> Prop) ms (ml ml' : M lstate B) : (forall s p, ml s p = ml' s p) -> xsim2 t fl call purev Q ms ml' -> xsim2 t fl call purev Q ms ml.
   Proof. intros E H ss p a ss' p' Hs ls pl HR Hb. rewrite E. apply (H _ _ _ _ _ Hs ls pl HR Hb). Qed.
 
   Notation lstep' := (lstep t fl glob regexes find call).
@@ -217,7 +235,7 @@ Section Whole2.
   Proof.
     intros Hst. induction qs as [|q qs IH]; intros HF; cbn [iterM map]; [apply xsim2_ret; exact I|].
     inversion HF as [|? ? (H1 & H2 & H3) HF']; subst. apply xsim2_seq; [|apply IH, HF'].
-    unfold lstep. cbn [fst snd]. rewrite Hst. apply (stanza_sim2 t fl glob regexes find call okfn purev Hpure Hinh q H2 fuel lf st H1 H3).
+    unfold lstep. cbn [fst snd]. rewrite Hst. apply (stanza_sim2 t fl glob regexes find call okfn purev Hpure q H2 fuel lf st H1 H3).
   Qed.
 
   Lemma file_sim2 fuel lf : forall sts ms i,
@@ -232,10 +250,10 @@ Section Whole2.
       replace (N.to_nat i + 1 + j)%nat with (N.to_nat i + S j)%nat by lia. apply Hnth. exact Hj.
   Qed.
 
-  Lemma rel2_init g0 : RelX2 call purev (sinit g0) (linit g0).
+  Lemma rel2_init g0 : RelX2 t fl call purev (sinit g0) (linit g0).
   Proof.
-    exists (W [] []). split; [split; [apply Sfull_nil|split; [constructor; [constructor|constructor]|]]|].
-    - intros n name v H. discriminate.
+    exists (W [] [] t (f_inherited fl)). split; [split; [apply Sfull_nil|split; [constructor; [constructor|constructor]|]]|].
+    - split; [split; reflexivity|]. intros n name v H. discriminate.
     - split; [intros name; reflexivity|]. split; [constructor|]. split; [intros n name loc []|]. split; [constructor|].
       exists [], [], g0. repeat split; constructor.
   Qed.
@@ -244,9 +262,9 @@ End Whole2.
 (* ---------------- the theorem ---------------- *)
 Theorem strict_lazy_same_graph_scoped_lemma {rx : Type} t fl supplied (regexes : list rx) find call (okfn : ident -> Prop) (purev : ident -> bool) fuel ms g0 s p :
   (forall f, okfn f -> pure_fn call f) ->
-  f_inherited fl = [] ->
   file_ok2 okfn purev fl (f_stanzas fl) ms ->
   run_strict t fl config0 supplied None regexes find call fuel ms g0 = Ok (s, p) ->
+  inh_antichain t fl (s_scoped s) ->
   forall lfuel,
     match run_lazy t fl config0 supplied None regexes find call lfuel (lmatches_of ms) g0 with
     | Ok (ls, _) => l_graph ls = s_graph s
@@ -254,14 +272,14 @@ Theorem strict_lazy_same_graph_scoped_lemma {rx : Type} t fl supplied (regexes :
     | Err _ | Panic _ => False
     end.
 Proof.
-  intros Hpure Hinh Hok Hs lfuel. unfold run_strict in Hs. unfold run_lazy.
+  intros Hpure Hok Hs Hanti lfuel. unfold run_strict in Hs. unfold run_lazy.
   destruct (check_globals (f_globals fl) (globals_nested supplied)) as [glob|e|x|]; try discriminate.
   destruct (exec_file t fl config0 glob regexes find call fuel (f_stanzas fl) ms (sinit g0) (polls0 None)) as [[[u s1] p1]|e|x|] eqn:Es; try discriminate.
   inversion Hs; subst s1 p1; clear Hs.
-  pose proof (file_sim2 t fl glob regexes find call okfn purev Hpure Hinh fuel lfuel (f_stanzas fl) ms 0 (fun j st H => H) Hok _ _ _ _ _ Es (linit g0) (polls0 None) (rel2_init call purev g0) eq_refl) as Hx.
+  pose proof (file_sim2 t fl glob regexes find call okfn purev Hpure fuel lfuel (f_stanzas fl) ms 0 (fun j st H => H) Hok _ _ _ _ _ Es (linit g0) (polls0 None) (rel2_init t fl call purev g0) eq_refl) as Hx.
   unfold lexec_file. fold (lstep t fl glob regexes find call lfuel). unfold lmatches_of.
   unfold bind. destruct (iterM (lstep t fl glob regexes find call lfuel) (lmatches_from 0 ms) (linit g0) (polls0 None)) as [[[u1 ls1] pl1]|e|x|]; cbn [lres] in Hx; try contradiction; [|exact I].
   destruct Hx as (Hb1 & [w HR1] & _).
-  pose proof (evaluate_phase_res2 t fl call purev (lfuel + default_eval_fuel) w s ls1 pl1 HR1 Hb1) as Hv.
+  pose proof (evaluate_phase_res2 t fl call purev (lfuel + default_eval_fuel) w s ls1 pl1 Hanti HR1 Hb1) as Hv.
   destruct (evaluate_phase t fl call (lfuel + default_eval_fuel) ls1 pl1) as [[[u2 ls2] pl2]|e|x|]; cbn [lres] in Hv; try contradiction; [exact Hv|exact I].
 Qed.
